@@ -41,6 +41,7 @@ type Delivered struct {
 	Msg     hx.B
 	TS      int32 // time of the chunk that carried the last byte
 	TSFirst int32 // time of the chunk that carried the first byte (sysex)
+	TS64    int64 // TS without the wrap-around of the 32-bit time stamp
 }
 
 // Receiver is the MIDI 1.0 receiver model.
@@ -54,6 +55,7 @@ type Receiver struct {
 	BufSize int // 0 = 1024
 
 	now      int32
+	now64    int64
 	running  byte
 	status   byte // status of the message being assembled (0 = none)
 	data     []byte
@@ -77,6 +79,7 @@ func (r *Receiver) bufSize() int {
 // Feed processes one delivery chunk that arrives delta milliseconds after the previous one.
 func (r *Receiver) Feed(chunk []byte, delta int32) {
 	r.now += delta
+	r.now64 += int64(delta)
 	for _, b := range chunk {
 		r.Byte(b)
 	}
@@ -96,12 +99,12 @@ func (r *Receiver) abandon() {
 func (r *Receiver) Byte(b byte) {
 	switch {
 	case b >= 0xF8:
-		r.Out = append(r.Out, Delivered{Msg: []byte{b}, TS: r.now, TSFirst: r.now})
+		r.Out = append(r.Out, Delivered{Msg: []byte{b}, TS64: r.now64, TS: r.now, TSFirst: r.now})
 	case b == 0xF7:
 		if r.inSysex {
 			if !r.overflow && len(r.syx)+1 <= r.bufSize() {
 				m := append(append([]byte{}, r.syx...), 0xF7)
-				r.Out = append(r.Out, Delivered{Msg: m, TS: r.now, TSFirst: r.tsFirst})
+				r.Out = append(r.Out, Delivered{Msg: m, TS64: r.now64, TS: r.now, TSFirst: r.tsFirst})
 			} else {
 				r.Oversize++
 			}
@@ -128,7 +131,7 @@ func (r *Receiver) Byte(b byte) {
 			}
 		case b == 0xF6:
 			r.running = 0
-			r.Out = append(r.Out, Delivered{Msg: []byte{b}, TS: r.now, TSFirst: r.now})
+			r.Out = append(r.Out, Delivered{Msg: []byte{b}, TS64: r.now64, TS: r.now, TSFirst: r.now})
 		case b == 0xF4 || b == 0xF5:
 			r.running = 0
 			r.Undefined++
@@ -157,7 +160,7 @@ func (r *Receiver) Byte(b byte) {
 		r.data = append(r.data, b)
 		if len(r.data) == DataLen(r.status) {
 			m := append([]byte{r.status}, r.data...)
-			r.Out = append(r.Out, Delivered{Msg: m, TS: r.now, TSFirst: r.tsFirst})
+			r.Out = append(r.Out, Delivered{Msg: m, TS64: r.now64, TS: r.now, TSFirst: r.tsFirst})
 			r.status, r.data = 0, nil
 		}
 	}
